@@ -4,7 +4,7 @@ C14 - "A CRL cache entry is only ever absent or complete".
 Part A (proof-oriented): an abstract POSIX directory (`name -> inode`, `inode -> bytes`), any
 number of writers running the protocol of `file.WriteFile`
   os.CreateTemp(root, "notation-*") ; Write ; Close ; os.Rename(temp, root/hex(sha256(url)))
-(`Facts.writeFileSteps`), any number of readers doing what `FileCache.Get` does (one
+(tied to the translated source in `Props/C14_WriteFile.lean`), any number of readers doing what `FileCache.Get` does (one
 `os.ReadFile` = open the key name once, read the pinned inode to EOF), crashes (SIGKILL) of
 writers anywhere. `step` is total: an ill-timed event is a no-op, so *every* event list is a
 schedule and theorems over `List Event` quantify over all interleavings and crash points.
@@ -73,9 +73,13 @@ inductive Event
                               -- WriteFile returns the error, its cleanup closes and removes the temp file
   | close (w : Nat)
   | rename (w : Nat)
+  | giveup (w : Nat)          -- the cleanup of a WriteFile that FAILED after its temp file was created (a failed
+                              -- write, close or rename): `os.Remove(temp)`, then the call returns its error.
+                              -- (`wfail w n` is `write w n` followed by `giveup w`: `wfail_is_write_then_giveup`.)
   | crash (w : Nat)
   | ropen (r : Nat)
   | rread (r n : Nat)         -- read up to `n+1` more bytes of the open file; nothing left = EOF
+  deriving DecidableEq, Repr
 
 def upd {α β} [DecidableEq α] (f : α → β) (a : α) (b : β) : α → β := fun x => if x = a then b else f x
 
@@ -112,6 +116,11 @@ def step (p : Prog) (s : Sys) : Event → Sys
       { s with dir := upd (upd s.dir (.tmp t) none) (.key (p.wkey w)) (some i),
                wst := upd s.wst w .done, cur := upd s.cur (p.wkey w) (some w),
                now := s.now + 1, stamp := upd s.stamp w s.now }
+    | _ => s
+  | .giveup w =>
+    match s.wst w with
+    | .opened t _ _ => { s with dir := upd s.dir (.tmp t) none, wst := upd s.wst w .dead }
+    | .closed t _ => { s with dir := upd s.dir (.tmp t) none, wst := upd s.wst w .dead }
     | _ => s
   | .crash w =>
     match s.wst w with
